@@ -442,7 +442,7 @@ Definition fpr (s s' : vsock) : Prop :=
   v_emsg_limit s' = v_emsg_limit s /\ v_restart s' = v_restart s /\
   (exists k, v_sends s' = skipn k (v_sends s)) /\
   (exists l, v_out s' = l ++ v_out s /\ Forall nodata l) /\
-  v_rtte s' = v_rtte s.
+  v_rtte s' = v_rtte s /\ v_rto_retransmissions s' = v_rto_retransmissions s.
 
 Lemma fpr_refl : forall s, fpr s s.
 Proof.
@@ -452,8 +452,8 @@ Qed.
 
 Lemma fpr_trans : forall a b c, fpr a b -> fpr b c -> fpr a c.
 Proof.
-  unfold fpr. intros a b c (A1 & A2 & A3 & A4 & A5 & A6 & (k1 & A9) & (l1 & A10 & A11) & A12)
-    (B1 & B2 & B3 & B4 & B5 & B6 & (k2 & B9) & (l2 & B10 & B11) & B12).
+  unfold fpr. intros a b c (A1 & A2 & A3 & A4 & A5 & A6 & (k1 & A9) & (l1 & A10 & A11) & A12 & A13)
+    (B1 & B2 & B3 & B4 & B5 & B6 & (k2 & B9) & (l2 & B10 & B11) & B12 & B13).
   repeat split; try congruence.
   - exists (k1 + k2)%nat. rewrite B9, A9. apply skipn_add.
   - exists (l2 ++ l1). split; [rewrite B10, A10; apply app_assoc|].
@@ -463,9 +463,10 @@ Qed.
 Lemma fpr_same : forall s s' : vsock,
   v_segs s' = v_segs s -> v_opts s' = v_opts s -> v_now s' = v_now s -> v_env_now s' = v_env_now s ->
   v_emsg_limit s' = v_emsg_limit s -> v_restart s' = v_restart s -> v_sends s' = v_sends s ->
-  v_out s' = v_out s -> v_rtte s' = v_rtte s -> fpr s s'.
+  v_out s' = v_out s -> v_rtte s' = v_rtte s ->
+  v_rto_retransmissions s' = v_rto_retransmissions s -> fpr s s'.
 Proof.
-  intros s s' E1 E2 E3 E4 E5 E6 E9 E10 E11. unfold fpr. repeat split; auto.
+  intros s s' E1 E2 E3 E4 E5 E6 E9 E10 E11 E12. unfold fpr. repeat split; auto.
   - exists 0%nat. exact E9.
   - exists []. split; [exact E10 | constructor].
 Qed.
@@ -821,6 +822,9 @@ End SendRule.
 Section PimRule.
 Variable Iv : vsock -> Prop.
 Hypothesis I_fpr : forall s s', fpr s s' -> Iv s -> Iv s'.
+(* the bookkeeping after an acknowledgement: RTO counter and two timers *)
+Hypothesis I_prog : forall (s : vsock) c tr ti, Iv s ->
+  Iv (set_t_inactivity (set_t_retransmit (set_rto_retransmissions s c) tr) ti).
 Hypothesis I_ack : forall (s1 s2 : vsock) h res, Iv s1 -> pim_ack cci s1 h = Some (s2, res) -> Iv s2.
 Hypothesis I_calc : forall (s3 : vsock) hr hd rtt now segs' p rc rcx,
   Iv s3 -> calc_pipe (v_segs s3) hr hd rtt now = Some (segs', p, rc) ->
@@ -881,8 +885,8 @@ Proof.
   match goal with |- spI (sbind ?m _) =>
     match m with context [acked_counts_as_sent ?x] => set (s2 := x) end end.
   assert (F2 : Iv s2).
-  { eapply I_fpr; [|exact H1]. subst s2. unfold restart_remote_inactivity_timer.
-    repeat break_match; first [apply fpr_refl | fpr_leaf]. }
+  { subst s2. unfold restart_remote_inactivity_timer. destruct (_ || _); [|exact H1].
+    destruct (ss_segs _); [destruct (our_fin_if_unacked _)|]; apply I_prog; exact H1. }
   clearbody s2.
   apply spI_bind.
   - destruct (0 <? _); [|exact F2].
@@ -1151,6 +1155,7 @@ Lemma pim_CAP : forall s : vsock, CAP s -> spI CAP (process_all_incoming_message
 Proof.
   intros s Hc. apply pim_rule; try exact Hc.
   - exact CAP_fpr.
+  - intros a c tr ti K. eapply CAP_eq; [| |exact K]; reflexivity.
   - intros s1 s2 h res [H1 H0] E. destruct (pim_ack_SP _ _ _ _ _ E H1) as (K1 & K2 & _).
     unfold CAP. rewrite K2. auto.
   - intros s3 hr hd rtt now segs' p rc rcx [H1 H0] E. unfold CAP, set_recovering. vsimpl_goal.
@@ -1477,6 +1482,7 @@ Lemma pim_IA : forall s : vsock, IA s -> spI IA (process_all_incoming_messages c
 Proof.
   intros s Hi. apply pim_rule; try exact Hi.
   - exact IA_fpr.
+  - intros a c tr ti K. eapply IA_skr; [|exact K]. skr_leaf.
   - intros s1 s2 h res K E. eapply IA_skr; [eapply pim_ack_skr; exact E | exact K].
   - intros s3 hr hd rtt now segs' p rc rcx K _. eapply IA_skr; [|exact K]. unfold set_recovering. skr_leaf.
 Qed.
